@@ -162,6 +162,23 @@ def run_shard(spec, acc):
                     acc.violation("repeated-payload-converted-differently", f"{d.id}: the same line decoded twice on one decoder with preferences gives different messages "
                                   f"(or the first result changed afterwards)", w)
                     continue
+                # the same payload frame by frame through a gateway format (fast packets are reassembled inside the decoder):
+                # the preferences apply to it just the same
+                if d.type in ("Single", "Fast") and (nb <= 8 if d.type == "Single" else nb <= 223) and acc.evaluations % 2 == 0:
+                    ident = wire.can_id(3, d.pgn, 7, 255)
+                    frames = [payload.to_bytes(nb, "little")] if d.type == "Single" else wire.fast_frames(payload.to_bytes(nb, "little"), acc.evaluations % 8, 0xFF)
+                    mf = None
+                    try:
+                        for fr in frames:
+                            mf = dec.decode_usb(wire.usb_frame(ident, fr)) if acc.evaluations % 4 == 0 else dec.decode_tcp(wire.ebyte_frame(ident, fr))
+                    except Exception:  # noqa: BLE001
+                        mf = None
+                    acc.count("framewise_decodes_compared")
+                    pf = project.msg_proj(mf)
+                    if pf is None or pf[7] != p1[7]:
+                        acc.violation("preferences-not-applied-to-frame-wise-input", f"{d.id}: decoded frame by frame the fields differ from the same payload decoded pre-assembled "
+                                      f"on the same decoder", w)
+                        continue
                 if project.msg_proj(m0)[:7] != project.msg_proj(m1)[:7] or m0.hash != m1.hash:
                     acc.violation("preferences-change-header", f"{d.id}: header/hash changed by preferences", w)
                 n_conv = 0
